@@ -152,6 +152,7 @@ type vfHookEv struct {
 	TSN  uint32
 	Len  int
 	NSent uint32
+	Age   time.Duration // now - chunk.since at the hook
 	Snap vfSnap
 }
 
@@ -284,6 +285,7 @@ func (s *vfSim) onHook(a *Association, side int, ev int, c *chunkPayloadData) {
 		he.TSN = c.tsn
 		he.Len = len(c.userData)
 		he.NSent = c.nSent
+		he.Age = time.Since(c.since)
 	}
 	s.mu.Lock()
 	s.hookLog = append(s.hookLog, he)
